@@ -868,6 +868,30 @@ func init() {
 		if allConcreteStr(a[0], a[1]) {
 			return toValues(strings.Split(a[0].(string), a[1].(string)))
 		}
+		if fd, ok := a[0].(*fdstr); ok {
+			if sep, ok := a[1].(string); ok {
+				// row-wise when every row splits into the same number of parts
+				n := -1
+				same := true
+				for _, r := range fd.tab {
+					c := len(strings.Split(r, sep))
+					if n >= 0 && c != n {
+						same = false
+						break
+					}
+					n = c
+				}
+				if same && n > 0 {
+					out := make([]value, n)
+					for k := 0; k < n; k++ {
+						k := k
+						out[k] = fdMap(fd, func(r string) string { return strings.Split(r, sep)[k] })
+					}
+					return out
+				}
+				return toValues(strings.Split(fr.i.fdConc(fd), sep))
+			}
+		}
 		if sep, ok := a[1].(string); ok && len(sep) == 1 {
 			return fr.i.symSplitByte(a[0], sep[0])
 		}
